@@ -206,6 +206,7 @@ func (r *report) finish() int {
 	funcs := map[string]int{}
 	stubs := map[string]int{}
 	unsupported := map[string]int{}
+	unmodelled := map[string]int{} // paths cut at an operation the engine does not model on that symbolic shape
 	unwind := 0
 	rewrites, audits, byModel, folded := 0, 0, 0, 0
 	monChecks := 0
@@ -243,6 +244,9 @@ func (r *report) finish() int {
 		for k, n := range st.Aborted {
 			if strings.HasPrefix(k, "unwind") {
 				unwind += n
+			}
+			if strings.HasPrefix(k, "unsupported") {
+				unmodelled[h.Name+": "+k] += n
 			}
 		}
 		skipped := st.Aborted["skipped"] > 0 && st.Completed == 0
@@ -316,6 +320,16 @@ func (r *report) finish() int {
 	for k, n := range unsupported {
 		fmt.Printf("INCOMPLETE: %d paths ended at an unmodelled callee %s\n", n, k)
 	}
+	{
+		var ks []string
+		for k := range unmodelled {
+			ks = append(ks, k)
+		}
+		sort.Strings(ks)
+		for _, k := range ks {
+			fmt.Printf("INCOMPLETE: %d paths cut short, nothing is claimed beyond the cut: %s\n", unmodelled[k], k)
+		}
+	}
 	for _, s := range r.selfMismatch {
 		fmt.Println("SELFTEST-MISMATCH:", s)
 	}
@@ -354,7 +368,7 @@ func (r *report) finish() int {
 		"rewriting": map[string]any{"infeasible_by_rewriting": rewrites, "audited_with_cvc5": audits, "audit_mismatches": len(auditFail), "feasible_by_verified_model": byModel, "audit_every": r.cfg.AuditEvery},
 		"distinct_nontrivial":           distinct,
 		"rule":                          "a case is one complete feasible path of a harness through the real code's SSA (one equivalence class of inputs: same branch outcomes, same map-key matches, same iteration orders); evaluations = property assertions discharged unsat by the solver(s); a path is non-trivial when at least one of its property assertions still contained a symbolic variable when sent to the solver; paths are distinct by construction (distinct decision sequences)",
-		"exhaustive":                    complete && len(unsupported) == 0 && len(r.inconclusive) == 0,
+		"exhaustive":                    complete && len(unsupported) == 0 && len(unmodelled) == 0 && len(r.inconclusive) == 0,
 		"paths":                         paths,
 		"harnesses":                     harnessInfo,
 		"functions_encoded":             fnames,
@@ -367,6 +381,7 @@ func (r *report) finish() int {
 		"explore_s":                r.exploreT.Seconds(),
 		"unwind_failures":          unwind,
 		"unsupported_paths":        unsupported,
+		"paths_cut_at_unmodelled_operations": unmodelled,
 		"spurious_counterexamples": r.spurious,
 		"inconclusive_sites":       r.inconclusive,
 		"native_replays":           r.replays,
